@@ -1449,3 +1449,44 @@ def stracc_match(ex, st, o, args, kwargs, node):
     f = ex.ctx.uf("match_%s_%s" % (tag, probe.sort().name()), probe.sort(), B)
     ex.ctx.atom_funs.setdefault(("match", probe.sort().name(), pat), f)
     return st.alloc(Vec(v.n, lambda k, v=v, f=f: f(to_z3(v.at(k))), idx=v.idx, kind="series"))
+
+
+@builtin("pandas.DataFrame.from_records")
+def pd_from_records(ex, st, args, kwargs, node):
+    """DataFrame.from_records(rows, columns=names): rows are tuples of len(names) values; default RangeIndex"""
+    if len(args) != 1 or set(kwargs) != {"columns"}:
+        raise Unsupported("DataFrame.from_records signature")
+    names = st.get(kwargs["columns"])
+    if isinstance(names, ListV):
+        names = [st.get(x) for x in names.items]
+    if not isinstance(names, (list, tuple)) or not all(isinstance(x, str) for x in names):
+        raise Unsupported("from_records with symbolic column names")
+    rows = st.get(args[0])
+    if isinstance(rows, ListV):
+        items = [st.get(x) for x in rows.items]
+        n = len(items)
+
+        def row_at(k, items=items):
+            return _pick(items, k)
+    elif isinstance(rows, (Seq, IterV)) or (isinstance(rows, Vec) and rows.kind == "list"):
+        n, row_at = rows.n, rows.at
+    else:
+        raise Unsupported("from_records of %r" % (rows,))
+
+    def field(k, i):
+        r = row_at(k)
+        r = st.get(r) if isinstance(r, Ref) else r
+        if isinstance(r, Rec):
+            vals = list(r.f.values())
+        elif isinstance(r, tuple):
+            vals = list(r)
+        else:
+            raise Unsupported("from_records row %r" % (r,))
+        if len(vals) != len(names):
+            raise Unsupported("from_records: row width differs from the column list")
+        x = vals[i]
+        return st.get(x) if isinstance(x, Ref) else x
+    if isinstance(n, int) and n > 0:
+        field(0, 0)       # width check now
+    cols = {c: (lambda k, i=i: field(k, i)) for i, c in enumerate(names)}
+    return st.alloc(Tab(n, cols, RangeIdx(n)))
